@@ -199,3 +199,250 @@ func typeBearsExpr(t types.Type, seen map[types.Type]bool) bool {
 	}
 	return false
 }
+
+// ---- C15-A1: a merge of histories that share no commit is refused.
+//
+// Branch.buildMergeObject patches the child's commits since the common ancestor onto the parent.
+// If the two leaf-to-root paths share no commit (a branch created while main was empty) there is
+// no base to diff against, and PatchOfPath treats the last element of the path it is given as
+// the base and skips it: whatever commonAncestor returns in that case, other than "none", makes
+// the merge succeed with the child's first commit missing.  Necessary shape: (a) commonAncestor
+// can report "none" (ksuid.Nil) for two non-empty paths — some return of ksuid.Nil is not confined
+// to the empty-input edge of a len test; (b) its caller compares the result with ksuid.Nil and
+// returns a non-nil error on the equal edge.
+func runCommonAncestorNone(c *Ctx, rule string) {
+	p := c.P
+	c.Rule(rule, "unrelated histories are refused: lake.commonAncestor has a return of ksuid.Nil that is reachable when both paths are non-empty, and every caller compares the result with ksuid.Nil and returns an error on the equal edge")
+	fn := p.Func("lake.commonAncestor")
+	if fn == nil {
+		c.Undecided(rule, "lake.commonAncestor", "anchor does not resolve")
+		return
+	}
+	isNilID := func(v ssa.Value) bool {
+		u, ok := v.(*ssa.UnOp)
+		if !ok {
+			return false
+		}
+		g, ok := u.X.(*ssa.Global)
+		return ok && g.Name() == "Nil" && g.Pkg != nil && g.Pkg.Pkg.Path() == "github.com/segmentio/ksuid"
+	}
+	// blocks reachable from the entry without taking the "is empty" edge of a len(x) == 0 / len(x) < 1 test
+	emptyEdge := func(b *ssa.BasicBlock) int { // index of the successor taken when the input is empty, or -1
+		if len(b.Instrs) == 0 {
+			return -1
+		}
+		iff, ok := b.Instrs[len(b.Instrs)-1].(*ssa.If)
+		if !ok {
+			return -1
+		}
+		bo, ok := iff.Cond.(*ssa.BinOp)
+		if !ok {
+			return -1
+		}
+		isLen := func(v ssa.Value) bool {
+			call, ok := v.(*ssa.Call)
+			if !ok {
+				return false
+			}
+			b, ok := call.Call.Value.(*ssa.Builtin)
+			return ok && b.Name() == "len"
+		}
+		isZero := func(v ssa.Value) bool {
+			k, ok := v.(*ssa.Const)
+			return ok && k.Value != nil && k.Value.ExactString() == "0"
+		}
+		switch {
+		case isLen(bo.X) && isZero(bo.Y) && bo.Op.String() == "==":
+			return 0
+		case isLen(bo.X) && isZero(bo.Y) && (bo.Op.String() == "!=" || bo.Op.String() == ">"):
+			return 1
+		case isZero(bo.X) && isLen(bo.Y) && bo.Op.String() == "==":
+			return 0
+		case isZero(bo.X) && isLen(bo.Y) && (bo.Op.String() == "!=" || bo.Op.String() == "<"):
+			return 1
+		}
+		return -1
+	}
+	seen := map[*ssa.BasicBlock]bool{}
+	var walk func(b *ssa.BasicBlock)
+	walk = func(b *ssa.BasicBlock) {
+		if seen[b] {
+			return
+		}
+		seen[b] = true
+		skip := emptyEdge(b)
+		for i, s := range b.Succs {
+			if i != skip {
+				walk(s)
+			}
+		}
+	}
+	if len(fn.Blocks) > 0 {
+		walk(fn.Blocks[0])
+	}
+	found := false
+	var anyRet ssa.Instruction
+	for _, b := range fn.Blocks {
+		for _, in := range b.Instrs {
+			ret, ok := in.(*ssa.Return)
+			if !ok || len(ret.Results) == 0 {
+				continue
+			}
+			anyRet = ret
+			v := returnOperand(ret, 0)
+			nilish := isNilID(v)
+			if phi, ok := v.(*ssa.Phi); ok {
+				for k, e := range phi.Edges {
+					if isNilID(e) && seen[phi.Block().Preds[k]] {
+						nilish = true
+					}
+				}
+			}
+			if nilish && seen[b] {
+				found = true
+			}
+		}
+	}
+	construct := "lake.commonAncestor reports that two non-empty paths share no commit"
+	if anyRet == nil {
+		c.Undecided(rule, "lake.commonAncestor", "no return found")
+	} else if found {
+		c.OK(rule, construct, anyRet.Pos(), "a return of ksuid.Nil is reachable past the emptiness tests")
+	} else {
+		c.Fail(rule, construct, fn.Pos(), "no return of ksuid.Nil is reachable when both paths are non-empty: for a child branch created while the parent was empty the function names some commit as the common ancestor, the guard of buildMergeObject does not fire, PatchOfPath skips the child's first commit as the base, and the merge succeeds with that commit's data missing from the parent")
+	}
+	// callers
+	n := 0
+	for _, caller := range p.FuncsIn("lake") {
+		for _, ci := range callsTo(caller, "lake.commonAncestor") {
+			call, ok := ci.(*ssa.Call)
+			if !ok {
+				continue
+			}
+			n++
+			construct := fnName(caller) + " refuses a merge without a common ancestor"
+			ok2 := false
+			for _, b := range caller.Blocks {
+				if len(b.Instrs) == 0 {
+					continue
+				}
+				iff, isIf := b.Instrs[len(b.Instrs)-1].(*ssa.If)
+				if !isIf {
+					continue
+				}
+				bo, isBo := iff.Cond.(*ssa.BinOp)
+				if !isBo || !((bo.X == ssa.Value(call) && isNilID(bo.Y)) || (bo.Y == ssa.Value(call) && isNilID(bo.X))) {
+					continue
+				}
+				edge := 0
+				if bo.Op.String() == "!=" {
+					edge = 1
+				}
+				// every return reachable from that edge's block head, before any join with the other edge, carries a non-nil error
+				tgt := b.Succs[edge]
+				good := true
+				hasRet := false
+				for _, in := range tgt.Instrs {
+					if ret, isRet := in.(*ssa.Return); isRet {
+						hasRet = true
+						ei := errIndex(caller.Signature)
+						if ei < 0 || isNilConst(returnOperand(ret, ei)) {
+							good = false
+						}
+					}
+				}
+				if hasRet && good {
+					ok2 = true
+				}
+			}
+			if ok2 {
+				c.OK(rule, construct, ci.Pos(), "the result is compared with ksuid.Nil and the equal edge returns an error")
+			} else {
+				c.Fail(rule, construct, ci.Pos(), "the result of commonAncestor is not compared with ksuid.Nil on an edge that returns an error: a merge of unrelated histories goes on to diff against the empty snapshot of the nil commit")
+			}
+		}
+	}
+	if n == 0 {
+		c.Undecided(rule, "lake.commonAncestor", "no caller found")
+	}
+}
+
+// ---- C14-P3 (= C12-P6): a patch mutator's refusal ends the commit attempt.
+//
+// commits.Patch.DeleteObject / AddDataObject / AddVector / DeleteVector refuse a change that does
+// not fit the tip the patch was built on (delete of an object that is not there, add of one that
+// is).  In the constructors of lake.Branch that refusal is the only conflict check between the
+// snapshot an operation computed its result from and the tip it commits on; a constructor that
+// goes on after it (skipping the object, continuing the loop) commits a result computed from a
+// stale snapshot.  From every edge on which the mutator's error is known non-nil, neither a
+// return with a nil error nor another execution of the call is reachable.
+var patchRefusalExempt = map[string]string{
+	"(*lake.Branch).DeleteWhere$closure -> (*lake/commits.Patch).DeleteObject":  "the deletion set was computed, in this constructor call, by scanning the very commit whose snapshot the patch is built on: every id is in the base",
+	"(*lake.Branch).DeleteWhere$closure -> (*lake/commits.Patch).AddDataObject": "the objects were written by this constructor call under fresh ids: none is in the base",
+}
+
+func runPatchRefusalIsFatal(c *Ctx, rule string) {
+	p := c.P
+	c.Rule(rule, "a patch mutator's refusal ends the commit attempt: in package lake, from every edge on which the error of commits.Patch.DeleteObject/AddDataObject/AddVector/DeleteVector is known non-nil, no return with a nil error and no further execution of that call is reachable")
+	mut := map[string]bool{
+		"(*lake/commits.Patch).DeleteObject":  true,
+		"(*lake/commits.Patch).AddDataObject": true,
+		"(*lake/commits.Patch).AddVector":     true,
+		"(*lake/commits.Patch).DeleteVector":  true,
+	}
+	n := 0
+	for _, fn := range p.FuncsIn("lake") {
+		if fn.Blocks == nil {
+			continue
+		}
+		idx := errIndex(fn.Signature)
+		for _, ci := range allCalls(fn) {
+			cc := ci.Common()
+			if !mut[calleeName(cc)] {
+				continue
+			}
+			n++
+			construct := constructName(fn) + " -> " + calleeName(cc)
+			v := errValueOf(ci)
+			if r, ok := patchRefusalExempt[construct]; ok && v == nil {
+				c.OK(rule, construct, ci.Pos(), "exempt: "+r)
+				continue
+			}
+			if v == nil || idx < 0 {
+				c.Fail(rule, construct, ci.Pos(), "the error of the patch mutator is discarded or cannot be returned")
+				continue
+			}
+			var bad ssa.Instruction
+			for _, e := range nonNilEdges(v) {
+				ib, to := e.from, e.to
+				first := true
+				hit := reachAvoidingEdges(fn, ib.Instrs[len(ib.Instrs)-1],
+					func(x ssa.Instruction) bool { return false },
+					func(x ssa.Instruction) bool {
+						if x == ci.(ssa.Instruction) {
+							return true
+						}
+						ret, ok := x.(*ssa.Return)
+						return ok && isNilConst(returnOperand(ret, idx))
+					},
+					func(a, b *ssa.BasicBlock) bool {
+						if a == ib && first {
+							return b == to
+						}
+						return true
+					})
+				_ = first
+				if hit != nil {
+					bad = hit
+				}
+			}
+			if bad == nil {
+				c.OK(rule, construct, ci.Pos(), "every failing edge ends in an error return")
+			} else {
+				c.Fail(rule, construct, bad.Pos(), "after "+calleeName(cc)+" refused the change the constructor can go on ("+p.Pos(bad.Pos())+"): the refusal is the only check that the tip still holds what the operation read, so e.g. a compaction whose source object was deleted meanwhile still commits its rollup and the deleted values reappear")
+			}
+		}
+	}
+	c.Floor(rule, 6)
+	_ = n
+}
